@@ -443,8 +443,8 @@ func TestC16(t *testing.T) {
 				return a, b
 			}
 			live := w.live()
-			kind := c.Weighted("event", 5, 4, 2, 2, 3, 3, 2, 2, 3, 3, 3, 3, 2, 3)
-			if kind == 11 && len(live) == 0 {
+			kind := c.Weighted("event", 5, 4, 2, 2, 3, 3, 2, 2, 3, 3, 3, 3, 2, 3, 3)
+			if (kind == 11 || kind == 14) && len(live) == 0 {
 				kind = 0
 			}
 			if kind >= 4 && kind <= 7 && len(live) == 0 {
@@ -597,6 +597,39 @@ func TestC16(t *testing.T) {
 				cc.closed[side] = true
 				w.closeEnds(cc, side == 0, side == 1)
 				c.Class("slow-close-with-reconnect")
+			case 14: // a local close whose reader goroutine is slow to notice: the peer has dialled again by the time it does
+				cc := live[c.Pick("stale.which", len(live))]
+				side := c.Pick("stale.side", 2)
+				e := cc.conn.A
+				local, remote := cc.a, cc.b
+				if side == 1 {
+					e = cc.conn.B
+					local, remote = cc.b, cc.a
+				}
+				if e.Link == nil || cc.closed[side] {
+					break
+				}
+				w.log("local close of link n%d->n%d at side %d; its reader gets to see the closed connection only after n%d and n%d are linked again", cc.a, cc.b, side, remote, local)
+				e.HoldReadError()
+				if c.Bool("stale.by-manager") {
+					w.nodes[local].Peer.CloseLink(e.Link.Peer())
+				} else {
+					e.Link.Close(nil)
+				}
+				w.waitClosed(e)
+				cc.closed[side] = true
+				w.closeEnds(cc, side == 1, side == 0) // EOF to the other side
+				from, to := remote, local
+				if c.Bool("stale.local-dials") {
+					from, to = local, remote
+				}
+				nc := &c16Conn{conn: wire.Dial(w.nodes[from], w.nodes[to]), a: from, b: to}
+				w.conns = append(w.conns, nc)
+				w.drive([]*c16Conn{nc}, true, -1)
+				e.ReleaseReadError()
+				// The old reader runs on now; real time only bounds the wait for it.
+				time.Sleep(time.Duration(c.Int("stale.settle-ms", 5, 25)) * time.Millisecond)
+				c.Class("reader-of-a-closed-link-notices-after-the-reconnect")
 			case 13: // a link setup during which one side closes that very link through its manager, at a generated point of the setup
 				a, b := pair()
 				side := c.Pick("sched.side", 2)
